@@ -6,6 +6,7 @@
 #include <stdlib.h>
 #include <string.h>
 #include <unistd.h>
+#include <signal.h>
 #include <gmssl/tls.h>
 #include <gmssl/sm2.h>
 #include "vh.h"
@@ -16,6 +17,7 @@ static int loadkey(const char *p, SM2_KEY *k) { size_t n; uint8_t *h = slurp(p, 
 int main(int argc, char **argv)
 {
 	if (argc < 8) return 2;
+	signal(SIGPIPE, SIG_IGN);       // the peer may hang up at any point
 	const char *dir = argv[1]; vt_open(argv[2]); int fd = atoi(argv[3]), proto = atoi(argv[4]), is_server = !strcmp(argv[5], "server");
 	TLS_CTX ctx; TLS_CONNECT *conn = calloc(1, sizeof *conn); memset(&ctx, 0, sizeof ctx);
 	ent_seed(4242); ent_tag(is_server ? "S" : "C");
